@@ -188,3 +188,58 @@ def combine(fams, nontrivial_key, rule, exhaustive=True, assumptions=None):
 
 def fam_list(tier, quick, thorough):
     return [cgt_family(n) for n in (quick if tier == 'quick' else quick + thorough)]
+
+
+# --------------------------------------------------------------------------------------------
+# MC_CgtLaw families: laws between two runs, model-checked on the specification (two instances of
+# Cgt run on a ledger and on its transform) and then demanded of the implementation, run against run.
+
+def law_cfg(law, secs='SecSeqA', dayset=3, buy=(0, 1, 2), sell=(0, 1, 2), splits=(1, 2, 3, 4), timings=('"end"',),
+            prefix=2, maxcells=0):
+    return f'''SPECIFICATION Spec
+CONSTANTS
+  SecSeq <- {secs}
+  N <- MC_N
+  DayNo <- MC_DayNo
+  DaySet = {dayset}
+  Law = "{law}"
+  BuyQs = {set_(buy)}
+  SellQs = {set_(sell)}
+  SplitKinds = {set_(splits)}
+  Timings = {set_(timings)}
+  PrefixDays = {prefix}
+  MaxCells = {maxcells}
+INVARIANTS LawHolds EmitPair
+CHECK_DEADLOCK FALSE
+'''
+
+
+LAW_FAMILIES = {
+    'rescale_q': dict(law='rescale', dayset=3, sell=(0, 1), splits=(1, 3), timings=BOTH),
+    'rescale_t': dict(law='rescale', dayset=3, timings=BOTH),
+    'rescale5_t': dict(law='rescale', dayset=1, splits=(1, 2, 4), maxcells=5, timings=BOTH),
+    'unsplit_q': dict(law='unsplit', dayset=1, splits=(1, 2), maxcells=4),
+    'unsplit_t': dict(law='unsplit', dayset=8, splits=(1, 2, 4), maxcells=4),
+    'extend_q': dict(law='extend', dayset=9, sell=(0, 1), splits=(1,), prefix=3),
+    'extend_t': dict(law='extend', dayset=10, splits=(1, 3), prefix=3, maxcells=6),
+    'project_q': dict(law='project', secs='SecSeqAB', dayset=7, sell=(0, 1)),
+    'project_t': dict(law='project', secs='SecSeqAB', dayset=5, buy=(0, 1, 2), sell=(0, 1), maxcells=3),
+}
+
+
+def law_family(name):
+    key = 'law_' + name
+    if key in _family_cache:
+        return _family_cache[key]
+    cfg = write_cfg('MC_CgtLaw_' + name, law_cfg(**LAW_FAMILIES[name]))
+    m = tlc('MC_CgtLaw', cfg, workers=8, timeout=3000)
+    log(f'[tlc] MC_CgtLaw/{name}: {m["states"]} distinct states, {m["transitions"]} transitions, depth {m["depth"]}'
+        f' ({"cached" if m["cached"] else str(m["wall_s"]) + "s"})')
+    wd = workdir('law_' + name)
+    out = os.path.join(wd, 'findings.ndjson')
+    s = harness('replay_law', ['--in', m['out'], '--out', out])
+    r = {'name': key, 'tlc': m, 'summary': s, 'findings': read_ndjson(out), 'obs': None}
+    log(f'[replay] MC_CgtLaw/{name}: {s["records"]} pairs, {s["counters"].get("executions", 0)} executions, '
+        f'{s["findings"]} deviations')
+    _family_cache[key] = r
+    return r
